@@ -10,6 +10,11 @@ ENGINE_F = "F-fault-point-enumeration"
 
 # id -> (engine, category, technique, level text, level note, design ref)
 CHECKS = {
+ "C01": (ENGINE_A, "model_checking",
+   "stateless model checking of the real Ingester (WAL on tmpfs): exhaustive DFS over schedules of 2 writers + flush timer at store-request / catalog-call / pause-point granularity with bounded preemptions, injected upload/registration errors (before/after effect) and one crash + restart placed at every quiescent point",
+   "Real Ingester with WalSyncMode::EveryWrite, flush_row_count 2: 3 single-row writes from 2 writers + timer tick; plans: every single (thorough: double) fault position x 1 preemption; every crash point x 2 (3) preemptions incl. crash during recovery-free restart; fault + crash; thorough adds all pause points, schema change (flush-before-append), a write after restart and rotate-on-every-entry. Oracle after a fault-free final flush through the shutdown path: every id whose write() returned Ok is in a catalogued chunk (decoded from the raw store).",
+   "a write that returned is durable (sync on every write, tmpfs); crash points are the quiescent points of the scheduler (tasks parked at gates; in-flight file operations complete first); torn WAL writes are C05's subject",
+   "DESIGN.md section 5 C01"),
  "C02": (ENGINE_A, "model_checking",
    "stateless model checking of the real code: exhaustive DFS over all interleavings of 2-3 catalog clients at object-store-request granularity, with state caching; linearizability oracle by brute force",
    "Every interleaving (2 clients: unbounded; 3 clients: preemption-bounded) of the real ObjectStoreMetadataClient mutation paths, incl. create races, legacy-fallback reads, conflict/retry and retry exhaustion; every catalog version checked for chunk-map/time-index agreement; final state must equal a real-time-consistent sequential order of exactly the Ok operations.",
@@ -25,6 +30,11 @@ CHECKS = {
    "All histories up to depth 3 (quick) / 5 (thorough) over append small/large, truncate_before, persist_flushed_seq, reopen and crash-during-operation (structural cuts) for three segment limits (rotate every entry, two entries per segment, never); from every distinct state every byte offset of a crash during append / truncate / flushed_seq write is followed by reopen-check-append-reopen-check against a reference log: exactly the complete entries, in order, once; sequence numbers above everything acknowledged.",
    "sync on every write: returned operations are durable; torn write = prefix of header++payload; atomic ordered create/unlink; persist_flushed_seq is called with the highest acknowledged sequence number",
    "DESIGN.md section 5 C05"),
+ "C06": (ENGINE_A, "model_checking",
+   "stateless model checking of the real Ingester without faults (exhaustive DFS over writer/timer schedules within a preemption bound) plus bounded-exhaustive enumeration of batch shapes x thresholds",
+   "Every schedule within 2 (3) preemptions of 2-3 writers with alternating schemas + flush timer + a legacy and a topic subscriber; after the shutdown flush: stored rows == accepted rows as multisets with bit-equal values, each catalog entry's row_count/min/max equal the decoded truth, each chunk announced to each subscriber exactly once. Input part: 2.5k shape x threshold combinations (timestamp types, extremes, NaN/inf/-0.0, null labels, row/byte thresholds, BufferFull).",
+   "fault-free; subscribers keep up with the channel",
+   "DESIGN.md section 5 C06"),
  "C07": (ENGINE_B, "model_checking",
    "explicit-state enumeration of all operation histories up to a depth, executed in lock-step on both real metadata back ends, every boundary query range compared with a reference interval map",
    "Every history of depth <=3 (quick; 4 with a reduced alphabet in thorough) over register (3 paths x 9-11 intervals incl. hour boundaries +-1 ns, negative, zero-length, multi-day, re-registration), delete, complete_compaction (known / unknown target) on LocalMetadataClient and ObjectStoreMetadataClient in lock-step plus a fresh object-store client; after each history all ordered pairs of ~40 boundary points are queried (inverted ranges included, judged leniently).",
